@@ -569,9 +569,12 @@ def run_impl(case):
                 r["ser_notjson"] = str(e)[:200]
                 insts.append(r)
                 continue
-            if uses_mixin_enum(case):
-                doc = json.loads(json.dumps(doc))     # the JSON text: a member of an IntEnum is written as its int
+            # the document is the JSON text: object keys are strings, a member of an IntEnum is written as its int
+            raw = C.rename_inline(dump.dump_value(doc, ctx), ctx)
+            doc = json.loads(json.dumps(doc))
             r["doc"] = C.rename_inline(dump.dump_value(doc, ctx), ctx)
+            if raw != r["doc"]:
+                r["doc_raw"] = raw
             doc_strings(doc, strings)
             if validator is not None:
                 try:
@@ -604,7 +607,7 @@ def run_impl(case):
             Deserializer(cls).deserialize(copy.deepcopy(doc))
             r["deser"] = {"ok": True}
         except Exception as e:
-            r["deser"] = {"err": C.err_name(e), "msg": str(e)[:200]}
+            r["deser"] = {"err": C.err_name(e), "msg": str(e)[:1500]}
         bres.append(r)
     res["bdocs"] = bres
     res["search"] = [[p, s, _search(p, s)] for p in sorted(pats) for s in sorted(strings)]
@@ -800,8 +803,9 @@ def admit_key(err, cls=None, inst=None, mapper=None, mixin=False):
                     return "outer-mapper-not-applied-to-definitions"
     if err.get("instance") in ("True", "False") and '"boolean"' in json.dumps(err.get("schema")):
         return "raw-boolean-string"
-    if mixin and cls is not None and err.get("path"):
-        fd0 = dict((mapped_key(n, mapper), f) for n, f in cls["fields"]).get(err["path"][0])
+    if mixin and cls is not None and (err.get("path") or len(cls["fields"]) == 1):
+        fd0 = cls["fields"][0][1] if len(cls["fields"]) == 1 else \
+            dict((mapped_key(n, mapper), f) for n, f in cls["fields"]).get(err["path"][0])
         if fd0 is not None and has_multifield(fd0) and enum_classes_used(fd0, set()):
             return "mixin-enum-member-in-multifield"
     if cls is not None and (err.get("path") or len(cls["fields"]) == 1):
@@ -828,6 +832,9 @@ def _admit_key(err):
     if v == "type" and isinstance(inst, bool) and err["value"] in ("integer", "number"):
         return "bool-as-number"
     if v == "enum" and isinstance(inst, bool):
+        return "bool-as-number"
+    if v == "enum" and isinstance(inst, (int, float)) and isinstance(err["value"], list) \
+            and any(isinstance(x, bool) and x == inst for x in err["value"]):
         return "bool-as-number"
     if v == "type" and isinstance(inst, dict) and err["value"] != "object":
         return "nested-field-wrapper"
@@ -954,8 +961,9 @@ def correspondence(case, impl, model):
                 if ("ok" in ms) != ("doc" in r):
                     if not ("err" in ms and "ser_err" in r):
                         return f"serialization: model {json.dumps(ms)[:200]}, real {json.dumps(r.get('doc', r.get('ser_err')))[:200]}"
-                elif "ok" in ms and not S._same(S.canon_doc(case["cls"], ms["ok"]), S.canon_doc(case["cls"], r["doc"])):
-                    return "serializations differ: model " + json.dumps(ms["ok"])[:250] + " real " + json.dumps(r["doc"])[:250]
+                elif "ok" in ms and not S._same(S.canon_doc(case["cls"], ms["ok"]),
+                                                S.canon_doc(case["cls"], r.get("doc_raw", r["doc"]))):
+                    return "serializations differ: model " + json.dumps(ms["ok"])[:250] + " real " + json.dumps(r.get("doc_raw", r["doc"]))[:250]
     mb = iter(model.get("bdocs", []))
     for dj, r in zip(case["bdocs"], impl.get("bdocs", [])):
         if "unbuildable" in r:
